@@ -526,7 +526,18 @@ DynArray* dyn_array_push_struct(DynArray* arr, const void* struct_ptr, size_t st
     assert(arr->elem_size == struct_size && "DynArray: Struct size mismatch");
     
     if (arr->length >= arr->capacity) {
+        /* struct_ptr may point at an element of this very array
+         * (array_push xs (at xs i) is emitted as push_struct(xs, &*get_struct(xs, i), ...)):
+         * realloc may move the block, so remember the offset and re-derive the pointer. */
+        uintptr_t base = (uintptr_t)arr->data;
+        uintptr_t src = (uintptr_t)struct_ptr;
+        bool inside = arr->data != NULL && src >= base &&
+                      src < base + (uintptr_t)arr->capacity * arr->elem_size;
+        size_t offset = inside ? (size_t)(src - base) : 0;
         dyn_array_grow(arr);
+        if (inside) {
+            struct_ptr = (const uint8_t*)arr->data + offset;
+        }
     }
     
     /* Copy struct into array */
@@ -565,9 +576,9 @@ void dyn_array_set_struct(DynArray* arr, int64_t index, const void* struct_ptr, 
         return;
     }
     
-    /* Copy struct into array */
+    /* Copy struct into array (memmove: array_set xs i (at xs i) passes the element itself) */
     void* dest = (uint8_t*)arr->data + (index * arr->elem_size);
-    memcpy(dest, struct_ptr, struct_size);
+    memmove(dest, struct_ptr, struct_size);
 }
 
 /* Pop struct - copies the last struct into out_struct and removes it */
